@@ -40,7 +40,7 @@ import (
 // keys
 
 type kcKey struct {
-	kind string // sm2 ecdh ecdsa rsa sm9sm sm9smp sm9su sm9em sm9emp sm9eu
+	kind string // sm2 ecdh ecdsa ecdsa384 ecdsa521 rsa sm9sm sm9smp sm9su sm9em sm9emp sm9eu
 	obj  any    // the key object the containers are made from (private key, or SM9 master public key)
 	d    []byte // scalar the trace dictated (nil for rsa)
 }
@@ -131,8 +131,8 @@ func kcNewKey(st Step) *kcKey {
 		k.obj, err = sm2.NewPrivateKey(d)
 	case "ecdh":
 		k.obj, err = ecdh.P256().NewPrivateKey(d)
-	case "ecdsa":
-		c := elliptic.P256()
+	case "ecdsa", "ecdsa384", "ecdsa521":
+		c := map[string]elliptic.Curve{"ecdsa": elliptic.P256(), "ecdsa384": elliptic.P384(), "ecdsa521": elliptic.P521()}[kind]
 		p := new(ecdsa.PrivateKey)
 		p.Curve = c
 		p.D = new(big.Int).SetBytes(d)
@@ -541,7 +541,7 @@ func kcParse(k *kcKey, b *kcBlob, der, pw []byte, unwrap *sm2.PrivateKey) (any, 
 		switch k.kind {
 		case "sm2", "ecdh":
 			return kcNil(pkcs8.ParsePKCS8PrivateKeySM2(der, v...))
-		case "ecdsa":
+		case "ecdsa", "ecdsa384", "ecdsa521":
 			return kcNil(pkcs8.ParsePKCS8PrivateKeyECDSA(der, v...))
 		case "rsa":
 			return kcNil(pkcs8.ParsePKCS8PrivateKeyRSA(der, v...))
@@ -678,8 +678,6 @@ func kcCanon(obj any) ([]byte, error) {
 	}
 	return nil, fmt.Errorf("no canonical encoding for %T", obj)
 }
-
-type kcEqualer interface{ Equal(x any) bool } // crypto.PrivateKey / crypto.PublicKey are any
 
 func kcEqual(a, b any) bool {
 	switch x := a.(type) {
